@@ -117,6 +117,9 @@ impl Vm {
         // Track the gas spent.
         let mut gas_spent: u64 = 0;
 
+        #[cfg(essential_base_verif)]
+        let verif_id = crate::verif::enter(self);
+
         // Execute each operation
         while let Some(res) = op_access.op_access(self.pc) {
             let op = res.map_err(|err| ExecError(self.pc, err.into()))?;
@@ -151,6 +154,9 @@ impl Vm {
                 op_gas_cost,
                 gas_limit,
             );
+
+            #[cfg(essential_base_verif)]
+            crate::verif::op(verif_id, self.pc, &op, op_gas, gas_spent, res.is_ok(), self);
 
             #[cfg(feature = "tracing")]
             crate::trace_op_res(
@@ -189,6 +195,8 @@ impl Vm {
                 None => self.pc += 1,
             }
         }
+        #[cfg(essential_base_verif)]
+        crate::verif::exit(verif_id, gas_spent, self);
         Ok(gas_spent)
     }
 
